@@ -118,13 +118,15 @@ class Session:
         return h.SeismicRecording3C(h.TimeSeries(mk(), dt), h.TimeSeries(mk(), dt), h.TimeSeries(mk(), dt),
                                     degrees_from_north=float(rng.choice([0.0, 20.0])), meta={"file name(s)": ["a.mseed", "b.mseed"]})
 
-    def make_settings(self):
+    def make_settings(self, default_fft=False):
         rng, h = self.rng, self.h
         sm = dict(operator=str(rng.choice(["konno_and_ohmachi", "log_rectangular", "linear_triangular"])), bandwidth=0, center_frequencies_in_hz=np.geomspace(2.0, 15.0, 7))
         sm["bandwidth"] = {"konno_and_ohmachi": 40.0, "log_rectangular": 0.6, "linear_triangular": 2.5}[sm["operator"]]
         wtw = ["tukey", float(rng.choice([0.0, 0.1, 0.5, 1.0]))]
         fft = [None, {"n": None}, {"n": 65536}, {}][rng.randint(4)]
         kind = rng.randint(6)
+        if default_fft:
+            fft, kind = None, rng.randint(5)
         common = dict(window_type_and_width=wtw, smoothing=sm, fft_settings=fft)
         if kind == 0:
             return h.HvsrTraditionalProcessingSettings(method_to_combine_horizontals=METHODS[rng.randint(len(METHODS))], **common)
@@ -138,7 +140,7 @@ class Session:
             return h.HvsrDiffuseFieldProcessingSettings(**common)
         return h.PsdProcessingSettings(**common)
 
-    def setup(self):
+    def setup(self, default_fft=False, with_long=False):
         ids = []
 
         def f():
@@ -150,7 +152,7 @@ class Session:
                 self.live[i], self.kind[i] = rec, "rec"
                 self.w.add(i, "rec", rec_slots(rec))
                 ids.append(i)
-            if self.rng.rand() < 0.35:         # a recording that needs a longer FFT than the 32 768-point minimum
+            if with_long or self.rng.rand() < 0.35:         # a recording that needs a longer FFT than the 32 768-point minimum
                 i = self.nid("r")
                 rec = self.make_rec(33000, dt)
                 self.live[i], self.kind[i] = rec, "rec"
@@ -158,7 +160,7 @@ class Session:
                 ids.append(i)
             for k in range(2):
                 i = self.nid("s")
-                s = self.make_settings()
+                s = self.make_settings(default_fft=default_fft)
                 self.live[i], self.kind[i] = s, "set"
                 self.w.add(i, f"set:{type(s).__name__}", set_slots(s))
                 ids.append(i)
@@ -220,8 +222,10 @@ class Session:
             e["sameN"] = bool(rn == n_eff)
             same_content = all(e["post"][r]["slots"][i][1] == e["pre"][rep]["slots"][i][1] for i in range(NCONTENT))
             if not e["sameN"] and not same_content:
+                idx = [k_ for k_, c in enumerate(self.calls) if c[0] == rep][0]
                 self.ratchet_repeats.append(dict(settings=type(sobj).__name__, recs=recs, n_first=rn, n_repeat=n_eff,
-                                                 first_fft_settings=[c for c in self.calls if c[0] == rep][0][5]))
+                                                 first_fft_settings=[c for c in self.calls if c[0] == rep][0][5],
+                                                 same_object_used_in_between=any(c[2] == s for c in self.calls[idx + 1:])))
         self.calls.append((r, recs, s, dig, n_eff, fft_before))
 
     def modify(self):
@@ -270,6 +274,25 @@ def main():
     rng = np.random.RandomState(run.seed + 9)
     ntr, nsteps = (36, 7) if run.quick else (600, 10)
     traces, sessions = [], []
+    # (run FIRST, while nothing has happened in this process yet: state kept at module level would otherwise already be saturated)
+    # scripted sessions: two settings objects left at their DEFAULT fft settings; one of them is later used on a recording that needs
+    # a longer FFT - the other one (never used on it) must neither change nor give a different result when its call is repeated
+    for variant in range(2 if run.quick else 6):
+        s = Session(h, rng)
+        s.setup(default_fft=True, with_long=True)
+        sets = [i for i, k in s.kind.items() if k == "set"]
+        small = [i for i, k in s.kind.items() if k == "rec" and s.live[i].ns.n_samples < 1000]
+        big = [i for i, k in s.kind.items() if k == "rec" and s.live[i].ns.n_samples >= 1000]
+        a_, b_ = sets[0], sets[1]
+        s.process(recs=small[:2], s=a_)
+        s.process(recs=small[:2], s=b_)
+        s.process(recs=big[:1], s=a_)
+        s.process(recs=small[:2], s=b_)          # exact repeat for b_: nothing that happened in between involved it
+        if s.failed:
+            op, roles, msg = s.failed
+            run.violation(f"session:{op}:raised", f"scripted session {variant}: {op} roles={roles} raised {msg}", dict(kind="session-raise"))
+        traces.append(dict(ev=s.events))
+        sessions.append(s)
     for ti in range(ntr):
         s = Session(h, rng)
         s.setup()
@@ -299,6 +322,10 @@ def main():
         run.case(("session", i) if any(e["op"] == "Process" and e.get("repeats") for e in tr["ev"]) else None, replayed=False)
         for rr in s.ratchet_repeats:
             key = "repeat-differs:n-None" if rr["first_fft_settings"] == {"n": None} else "repeat-differs:fft-length-ratchet"
+            if key == "repeat-differs:fft-length-ratchet" and not rr["same_object_used_in_between"]:
+                # the known ratchet needs a call WITH THIS settings object in between; a stored length that changes without the
+                # object having been used is something else
+                key = "repeat-differs:fft-length-changed-although-settings-object-not-used"
             run.violation(key, f"session {i}: repeating process() on recordings {rr['recs']} with the same {rr['settings']} object gives a "
                           f"different result because the stored FFT length changed from {rr['n_first']} to {rr['n_repeat']} between the calls",
                           dict(kind="ratchet", detail=rr))
